@@ -661,6 +661,35 @@ func c13RefGrid() []c13Case {
 			}
 		}
 	}
+	// 2b. a reference that dangles in ITS role although the same ID is defined in another role (and referenced there, in
+	// the same or in another pipeline): ids are resolved per component kind
+	for _, x := range []struct {
+		def, role, other string
+	}{{"receivers", "exporters", "receivers"}, {"exporters", "receivers", "exporters"}, {"processors", "exporters", "processors"}, {"processors", "receivers", "processors"}} {
+		id := map[string]string{"receivers": "nop/ronly", "exporters": "nop/eonly", "processors": "batch/ponly"}[x.def]
+		for _, same := range []bool{true, false} {
+			for _, first := range []bool{true, false} {
+				m := base()
+				m[x.def].(map[string]any)[id] = nil
+				usePl, badPl := "traces", "traces"
+				if !same {
+					badPl = "logs"
+				}
+				// the valid use in its own role
+				if x.def == "processors" {
+					pipe(m, usePl)["processors"] = []any{id}
+				} else {
+					pipe(m, usePl)[x.def] = []any{id}
+				}
+				l := []any{id, "nop"}
+				if !first {
+					l = []any{"nop", id}
+				}
+				pipe(m, badPl)[x.role] = l
+				out = append(out, c13Case{Kind: "fault", Comp: fmt.Sprintf("reference to an id defined only under %s: %s %s=%v (valid use in %s)", x.def, badPl, x.role, l, usePl), Expect: id, Config: m})
+			}
+		}
+	}
 	for _, l := range [][]any{{"nosuchext"}, {"zpages", "nosuchext"}, {"nosuchext", "zpages"}, {"zpages/undefined"}, {"zpages", "zpages/undefined"}} {
 		m := base()
 		m["service"].(map[string]any)["extensions"] = l
